@@ -19,6 +19,7 @@ import tempfile as _real_tempfile
 import types
 
 import numpy as np
+from .common import aeq  # noqa: E402
 
 from . import build as B
 from .common import Discard, HarnessError, digest_arrays, digest_obj, quiet
@@ -655,7 +656,7 @@ class Sim:
                 # mutated in place by the update
                 if cur["in"] is not None:
                     for k_, v_ in values.items():
-                        if v_ is not None and not np.array_equal(np.asarray(v_), cur["in"][k_]):
+                        if v_ is not None and not aeq(np.asarray(v_), cur["in"][k_]):
                             sim.alias_violations.append((st, step, k_))
                             h.probe("input_mutated_in_place")
                             break
